@@ -365,6 +365,12 @@ func (a *genericAuthenticator) calculateCacheKey(ctx heimdall.Context, reference
 	digest.Write(a.e.Hash())
 	digest.Write(stringx.ToBytes(reference))
 
+	// the payload sent to the endpoint is rendered from the template and the authentication data
+	if a.payload != nil {
+		digest.Write([]byte{0})
+		digest.Write(a.payload.Hash())
+	}
+
 	// the values of the forwarded headers and cookies are part of the request sent to the endpoint
 	for _, name := range a.fwdHeaders {
 		digest.Write([]byte{0})
